@@ -90,24 +90,90 @@ def r2_early_return(ctx, rule):
     if not web or not later:
         ctx.unk(rule, SP, 'detector calls not found')
         return
-    early = [r for r in rets if web[0].lineno < r.lineno < min(l.lineno for l in later)]
+    # Interpret the statements between the website detector and the next detector on the four truth assignments of
+    # (found_emails, found_urls): which of them leave, with which category constant and probability?
     facts = {'returns': [U(r.value) for r in rets]}
-    ok = False
-    for r in early:
-        conds = [(U(t), p) for t, p in path_conditions(mod, r)]
-        if len(r.value.elts) == 4 and const(r.value.elts[2]) == 0 and conds == [("category in ['e', 'w']", True)]:
-            ok = True
-    cat = [s for s in fn.body if isinstance(s, ast.If) and U(s.test) == 'found_emails']
-    catok = False
-    if cat:
-        c = cat[0]
-        catok = U(c.body) == "category = 'e'" and len(c.orelse) == 1 and isinstance(c.orelse[0], ast.If) \
-            and U(c.orelse[0].test) == 'found_urls' and U(c.orelse[0].body) == "category = 'w'"
-    if ok and catok:
-        ctx.ok(rule, SP, "strings with an e-mail / website are classified e / w and returned with probability 0 before any lookup", facts)
-    else:
-        ctx.bad(rule, SP, 'e-mail/website handling', "found e-mails -> category 'e', found URLs -> 'w', both return probability 0 "
-                "before the other detectors run", facts, fn)
+    top = list(fn.body)
+    try:
+        i0 = next(k for k, st in enumerate(top) if any(x is web[0] for x in ast.walk(st)))
+        i1 = min(k for k, st in enumerate(top) for l in later if any(x is l for x in ast.walk(st)))
+    except (StopIteration, ValueError):
+        ctx.unk(rule, SP, 'detector calls are not top-level statements of parse')
+        return
+    # names of the two found lists (results of e-mail / website detection)
+    names = {}
+    for st, nm, res in calls:
+        if 'email_detection' in res and isinstance(st.targets[0], ast.Tuple):
+            names['E'] = U(st.targets[0].elts[0])
+        if 'website_detection' in res and isinstance(st.targets[0], ast.Tuple):
+            names['W'] = U(st.targets[0].elts[0])
+    if set(names) != {'E', 'W'}:
+        ctx.unk(rule, SP, 'found lists of the e-mail / website detectors not identified')
+        return
+
+    class Unknown(Exception):
+        pass
+
+    def ev(t, env):
+        if isinstance(t, ast.Name) and t.id == names['E']:
+            return env['E']
+        if isinstance(t, ast.Name) and t.id == names['W']:
+            return env['W']
+        if isinstance(t, ast.UnaryOp) and isinstance(t.op, ast.Not):
+            return not ev(t.operand, env)
+        if isinstance(t, ast.BoolOp):
+            vals = [ev(v, env) for v in t.values]
+            return all(vals) if isinstance(t.op, ast.And) else any(vals)
+        if isinstance(t, ast.Compare) and len(t.ops) == 1:
+            l, r = t.left, t.comparators[0]
+            if isinstance(l, ast.Call) and call_name(l) == 'len' and U(l.args[0]) in (names['E'], names['W']) and const(r) == 0:
+                v = env['E'] if U(l.args[0]) == names['E'] else env['W']
+                return {ast.Gt: v, ast.NotEq: v, ast.Eq: not v}.get(type(t.ops[0]), None)
+            lv = env.get(U(l), const(l) if const(l) is not NOCONST else None)
+            if isinstance(t.ops[0], (ast.In, ast.NotIn)) and isinstance(r, (ast.List, ast.Tuple, ast.Set)) and lv is not None:
+                inn = lv in [const(e) for e in r.elts]
+                return inn if isinstance(t.ops[0], ast.In) else not inn
+            rv = env.get(U(r), const(r) if const(r) is not NOCONST else None)
+            if isinstance(t.ops[0], (ast.Eq, ast.NotEq)) and lv is not None and rv is not None:
+                return (lv == rv) if isinstance(t.ops[0], ast.Eq) else (lv != rv)
+        raise Unknown(U(t))
+
+    def run(stmts, env):
+        for st in stmts:
+            if isinstance(st, ast.If):
+                r = run(st.body if ev(st.test, env) else st.orelse, env)
+                if r is not None:
+                    return r
+            elif isinstance(st, ast.Return):
+                if isinstance(st.value, ast.Tuple) and len(st.value.elts) == 4:
+                    cat = st.value.elts[1]
+                    cv = env.get(U(cat), const(cat) if const(cat) is not NOCONST else None)
+                    return (cv, const(st.value.elts[2]))
+                return ('?', '?')
+            elif isinstance(st, ast.Assign) and len(st.targets) == 1 and isinstance(st.targets[0], ast.Name) and const(st.value) is not NOCONST:
+                env[st.targets[0].id] = const(st.value)
+            elif isinstance(st, (ast.Assign, ast.Expr, ast.AugAssign)):
+                pass
+            else:
+                raise Unknown(type(st).__name__)
+        return None
+    table = {}
+    try:
+        for E in (True, False):
+            for W in (True, False):
+                table['emails=%s urls=%s' % (E, W)] = run(top[i0 + 1:i1], {'E': E, 'W': W})
+    except Unknown as u:
+        ctx.unk(rule, SP, 'e-mail/website handling not understood: %s' % u)
+        table = None
+    if table is not None:
+        facts['early_exit_table'] = {k: list(v) if v else None for k, v in table.items()}
+        want = {'emails=True urls=True': ('e', 0), 'emails=True urls=False': ('e', 0), 'emails=False urls=True': ('w', 0),
+                'emails=False urls=False': None}
+        if table == want:
+            ctx.ok(rule, SP, "strings with an e-mail / website are classified e / w and returned with probability 0 before any lookup", facts)
+        else:
+            ctx.bad(rule, SP, 'e-mail/website handling %s' % facts['early_exit_table'], "found e-mails -> category 'e', found URLs -> 'w', "
+                    "both return probability 0 before the other detectors run; everything else goes on to be scored", facts, fn)
     # unsupported structure -> 0
     uns = [r for r in rets if any((U(t) == 'is_supported' and not p) or (U(t) == 'not is_supported' and p) for t, p in path_conditions(mod, r))]
     if uns and const(uns[0].value.elts[2]) == 0:
@@ -250,12 +316,39 @@ def r5_loader(ctx, rule):
         ctx.bad(rule, SG + 'load_grammar', 'scorer table sources %s' % facts, 'a table loaded from another category scores strings '
                 'with probabilities the guesser does not use', facts, fn)
     mf = ctx.fn(SG + '_load_from_multiple_files')
-    txt = U(mf)
-    if "length = int(file.split('.')[0])" in txt and 'grammar_counter[length] = Counter()' in txt \
-            and '_load_from_file(grammar_counter[length], full_path, encoding)' in txt:
-        ctx.ok(rule, SG + '_load_from_multiple_files', 'length-indexed tables keyed by the integer file stem')
+    mq = SG + '_load_from_multiple_files'
+    mps = params(mf)
+    tab = mps[0]
+    loops = [n for n in mf.body if isinstance(n, ast.For) and isinstance(n.target, ast.Name)]
+    verdict = None
+    if len(loops) == 1:
+        lp = loops[0]
+        f = lp.target.id
+        la = {}
+        for st in lp.body:
+            if isinstance(st, ast.Assign) and len(st.targets) == 1 and isinstance(st.targets[0], ast.Name):
+                la.setdefault(st.targets[0].id, []).append(st.value)
+        keys = [k for k, v in la.items() if len(v) == 1 and U(v[0]) in ("int(%s.split('.')[0])" % f, "int(%s.partition('.')[0])" % f,
+                                                                        "int(os.path.splitext(%s)[0])" % f)]
+        stores_ = [st for st in lp.body if isinstance(st, ast.Assign) and isinstance(st.targets[0], ast.Subscript)
+                   and U(st.targets[0].value) == tab]
+        loads_ = [c for st in lp.body for c in ast.walk(st) if isinstance(c, ast.Call) and call_name(c) == '_load_from_file']
+        if len(keys) == 1 and len(stores_) == 1 and len(loads_) == 1 and loads_[0].args:
+            K = keys[0]
+            st = stores_[0]
+            fresh = U(st.value) == 'Counter()' or (isinstance(st.value, ast.Name) and [U(v) for v in la.get(st.value.id, [])] == ['Counter()'])
+            arg = loads_[0].args[0]
+            same = U(arg) == '%s[%s]' % (tab, K) or (isinstance(st.value, ast.Name) and U(arg) == st.value.id)
+            verdict = U(st.targets[0].slice) == K and fresh and same
+        elif stores_ or loads_:
+            verdict = False if (len(keys) == 0 and stores_) else None
+    if verdict is True:
+        ctx.ok(rule, mq, 'length-indexed tables keyed by the integer file stem')
+    elif verdict is False:
+        ctx.bad(rule, mq, 'length key', 'tables are indexed by int(file stem) = len(value), each file loaded into the table of its own '
+                'length', None, mf)
     else:
-        ctx.bad(rule, SG + '_load_from_multiple_files', 'length key', 'tables are indexed by int(file stem) = len(value)', None, mf)
+        ctx.unk(rule, mq, 'the loop that loads the length-indexed files is not in a recognised form')
     lf = ctx.fn(SG + '_load_from_file')
     if 'grammar_counter[split_values[0]] = float(split_values[1])' in U(lf):
         ctx.ok(rule, SG + '_load_from_file', 'table[value] = float(probability)')
